@@ -48,6 +48,16 @@ def gen(ctx, k):
 
 def real_obs(ctx, m):
     fd = U.fresh(m)
+    if m.get('reuse'):
+        # thin history layer (labelled stream 'same-object-after-coordinate-assignment'): the object first holds other
+        # coordinates and is queried, then the coordinates of `m` are assigned through the public setter and the
+        # query is repeated on the SAME object without clearing any cache; the result must be that of `m`
+        import numpy as np
+        target = fd.nodes.data.copy()
+        fd.nodes.data = target * 0.5 + np.array([1.0, -2.0, 0.5])
+        U.stage('calculate_normal_incidence_matrix() before the coordinate assignment')
+        G.quiet(fd.calculate_normal_incidence_matrix)
+        fd.nodes.data = target
     U.stage('calculate_normal_incidence_matrix()')
     ffd, inc, normals = G.quiet(fd.calculate_normal_incidence_matrix)
     coo = inc.tocoo()
@@ -189,7 +199,7 @@ def correspond(ctx, m, obs, case, planar):
 
 
 def one_case(ctx, m):
-    case = U.mesh_case(m, jittered=bool(m.get('jittered')))
+    case = U.mesh_case(m, jittered=bool(m.get('jittered')), reuse=bool(m.get('reuse')))
     planar = m['kind'] == 'tet' or not m.get('jittered')
     key = (tuple(m['nodes']), tuple((t, tuple((e, tuple(c)) for e, c in b)) for t, b in m['blocks'].items()))
     obs = U.guarded(ctx, case, key, real_obs, ctx, m)
@@ -216,12 +226,17 @@ def run(ctx):
         try:
             mm = G.from_json(obj['input']['mesh'])
             mm['jittered'] = obj['input'].get('jittered', False)
+            mm['reuse'] = obj['input'].get('reuse', False)
             one_case(ctx, mm)
             ctx.count('corpus')
         except Exception as e:  # noqa
             ctx.notes.append(f'corpus case {name}: {e!r}')
     for k in range(n):
-        one_case(ctx, gen(ctx, k))
+        m = gen(ctx, k)
+        if k % 5 == 4:
+            m['reuse'] = True
+            ctx.count('stream:same-object-after-coordinate-assignment')
+        one_case(ctx, m)
     ctx.extra['p_tie'] = {'tolerance_float64': U.TOL_LINEAR, 'tolerance_float32_volume': U.TOL_CENTROID,
                           'scale': 'max|coordinate|^d (d = 1 centres, 2 areas, 3 volumes)'}
 
@@ -229,6 +244,7 @@ def run(ctx):
 def replay(ctx, obj):
     m = G.from_json(obj['input']['mesh'])
     m['jittered'] = obj['input'].get('jittered', False)
+    m['reuse'] = obj['input'].get('reuse', False)
     planar = m['kind'] == 'tet' or set(m['blocks']) == {'tet'} or not m['jittered']
     case = U.mesh_case(m, jittered=m['jittered'])
     n0 = len(ctx.failures)
